@@ -11,7 +11,13 @@ export PYTHONPATH="$wt/src" PYTHONDONTWRITEBYTECODE=1
 ( cd "$wt" && timeout 300 /venv/bin/python "$out/demo.py" >$out/demo_clean.log 2>&1 ); clean=$?
 git -C "$wt" apply "$out/patch.diff" || { echo "$id: patch does not apply"; exit 1; }
 ( cd "$wt" && timeout 300 /venv/bin/python "$out/demo.py" >$out/demo_patched.log 2>&1 ); patched=$?
-( cd "$wt" && /venv/bin/python -m pytest -q -p no:cacheprovider --timeout=900 test 2>&1 | tail -3 >$out/suite.log ); 
+# RELAX=1: lengthen the constexpr helper's 1 s timeout from outside the tree (needed when the machine is loaded)
+if [ -n "$RELAX" ]; then
+( cd "$wt" && PYTHONPATH="$wt/src:/verif/tools" /venv/bin/python -m pytest -q -p no:cacheprovider -p relax_constexpr_timeout --timeout=900 test 2>&1 | tail -3 >$out/suite.log );
+else
+( cd "$wt" && /venv/bin/python -m pytest -q -p no:cacheprovider --timeout=900 test 2>&1 | tail -3 >$out/suite.log );
+fi
+
 suite=$(grep -c "passed" $out/suite.log); failed=$(grep -c "failed" $out/suite.log)
 echo "$id: demo clean exit=$clean patched exit=$patched suite: $(tail -1 $out/suite.log)"
 if [ "$clean" = 0 ] && [ "$patched" = 1 ] && [ "$failed" = 0 ] && [ "$suite" -ge 1 ]; then
